@@ -14,7 +14,7 @@ CONSTANTS
   MaxCtr = 1
   LoadCap = 2
   MaxReq = 3
-  CmdsOf <- C11Spell3
+  CmdsOf <- C11Spell4
   Export = TRUE
 SPECIFICATION Spec
 INVARIANT TypeOK
